@@ -105,7 +105,7 @@ Definition spec_op (ops : list oper) (o : oper) : bool :=
 (* a byte that starts no token class *)
 Definition spec_unknown (ops : list oper) (c : Z) : bool :=
   negb (c =? 0) && negb (c =? 92) && negb (inb c wsAll) && negb (identStart c) && negb (is_digit c)
-  && negb (inb c (operatorCharcodes ops)) && negb (c =? 34) && negb (c =? 39).
+  && negb (inb c (operatorCharcodes ops)) && negb (c =? 34) && negb (c =? 39) && negb (c =? 46).
 
 Definition good (ops : list oper) (t : token) : bool :=
   match t with
